@@ -578,90 +578,94 @@ def rule_bitfields(report, prog, res):
 
 
 # ------------------------------------------------------------------------------ R6
+
+class TlvFold(object):
+    """Parameter.encode / Parameter.decode folded for concrete arguments -> ('return', value) | ('raise', text of the raised
+    expression) | ('error', what the folded text itself raises: struct.error / IndexError) | ('notconst', reason)."""
+
+    def __init__(self, prog):
+        from ..q import fold_block, NotConst, FoldStructError
+        self._fold, self._NotConst, self._Struct = fold_block, NotConst, FoldStructError
+        par = prog.cls(PDU + '.Parameter')
+        self.enc, self.dec = par.methods['encode'], par.methods['decode']
+        self.consts = {}
+        for st in par.node.body:
+            if isinstance(st, ast.Assign) and isinstance(st.targets[0], ast.Tuple) and isinstance(st.value, ast.Call) and norm(st.value.func) == 'range':
+                for nm, v in zip(st.targets[0].elts, range(*[try_const(a) for a in st.value.args])):
+                    self.consts[nm.id] = v
+            elif isinstance(st, ast.Assign) and isinstance(st.targets[0], ast.Name) and isinstance(try_const(st.value), int):
+                self.consts[st.targets[0].id] = try_const(st.value)
+
+    def _run(self, f, args):
+        params = [a.arg for a in f.node.args.args]
+        env = dict(zip(params, args))
+        env.update({'Parameter.' + k: v for k, v in self.consts.items()})
+        try:
+            return self._fold(f.node.body, env)
+        except self._Struct as e:
+            return ('error', str(e))
+        except self._NotConst as e:
+            return ('notconst', str(e))
+        except (IndexError, ValueError, TypeError, OverflowError) as e:
+            return ('error', '%s: %s' % (type(e).__name__, e))
+
+    def encode(self, t, v):
+        return self._run(self.enc, [t, v])
+
+    def decode(self, data, offset, size):
+        return self._run(self.dec, [bytes(data), offset, size])
+
 def rule_tlv(report, prog, res):
     par = prog.cls(PDU + '.Parameter')
     consts = class_consts(prog, par)
     enc = par.methods['encode']
     dec = par.methods['decode']
     env = {'Parameter.' + k: v for k, v in consts.items()}
-    # encoder: for each T the returned struct format and literal L
-    enc_info = {}
-    for st in walk_no_nested(enc.node):
-        if isinstance(st, ast.If):
-            t = st.test
-            ts = []
-            b = match(t, 'T in $S')
-            if b is not None:
-                ts = list(const(b['S'], env))
-            else:
-                b = match(t, 'T == $X')
-                if b is not None:
-                    ts = [const(b['X'], env)]
-            if not ts:
-                continue
-            for r in walk_no_nested(st):
-                if isinstance(r, ast.Return):
-                    packs = [c for c in ast.walk(r.value) if isinstance(c, ast.Call) and norm(c.func) == 'struct.pack']
-                    if len(packs) == 1:
-                        fmt = try_const(packs[0].args[0])
-                        L = packs[0].args[2]
-                        for tt in ts:
-                            enc_info[tt] = (fmt, L, r)
-    # decoder: for each T the length test and the unpack format
-    dec_info = {}
-    for st in walk_no_nested(dec.node):
-        if isinstance(st, ast.If) and match(st.test, 'T == Parameter.$N') is not None:      # head of the per type dispatch chain
-            node = st
-            while isinstance(node, ast.If):
-                b = match(node.test, 'T == Parameter.$N')
-                b2 = match(node.test, 'T == Parameter.$N and L == 0')
-                if b is not None:
-                    tval = consts[b['N']]
-                    need = None
-                    fmt = None
-                    for x in node.body:
-                        bb = match(x, 'if L != $K:\n    raise $_') if isinstance(x, ast.If) else None
-                        if isinstance(x, ast.If) and isinstance(x.test, ast.Compare) and norm(x.test.left) == 'L' \
-                                and isinstance(x.test.ops[0], ast.NotEq) and any(isinstance(y, ast.Raise) for y in x.body):
-                            need = try_const(x.test.comparators[0])
-                        for c in ast.walk(x):
-                            if isinstance(c, ast.Call) and norm(c.func) in ('struct.unpack', 'struct.unpack_from'):
-                                fmt = c.args[0]
-                    dec_info[tval] = (need, fmt, node)
-                node = node.orelse[0] if len(node.orelse) == 1 else None
-            break
-    names = {v: k for k, v in consts.items()}
+    # encoder and decoder folded (checker's own evaluator, nfcsa.q.fold_block) for every fixed-size TLV type and sample values:
+    # what the encoder writes is what the decoder reads back, and the decoder refuses the type with any other length
+    tlv = TlvFold(prog)
+    samples = {'VERSION': [0, 1, 0x12, 0xFF], 'LTO': [0, 1, 0x64, 0xFF], 'RW': [0, 1, 0x0F], 'OPT': [0, 1, 7], 'MIUX': [0, 1, 0x0102, 0x07FF],
+               'WKS': [0, 1, 0x0102, 0xFFFF], 'SDRES': [(0, 0), (1, 2), (255, 63)]}
     fixed = 0
-    for t in sorted(enc_info):
-        fmt, L, r = enc_info[t]
-        if t not in dec_info:
+    for name in sorted(samples):
+        t = consts.get(name)
+        if t is None:
             continue
-        need, dfmt, node = dec_info[t]
-        Lc = try_const(L)
-        if Lc is None:
-            continue        # variable-length TLVs (SN, ECPK, RN, SDREQ)
         fixed += 1
-        vfmt = fmt.lstrip('>!<=@')[2:]      # after T and L
-        order = fmt[0] if fmt[0] in '<>!=@' else ''
-        dtext = try_const(dfmt)
-        vsize = struct.calcsize(order + vfmt)
-        okk = (need == Lc == vsize) and isinstance(dtext, str) and struct.calcsize(dtext) == vsize
-        if okk and vsize > 1 and vfmt != 'B' * vsize:
-            okk = (order in ('>', '!')) and dtext[0] in ('>', '!')
-        report.check(okk, 'C11-R6', key(par.qname, 'TLV %s encode format == decode length/format' % names[t]),
-                     enc.loc(r), 'TLV %s: encoder writes L=%r value %r (%d bytes) but decoder demands L == %r and reads %r'
-                     % (names[t], Lc, order + vfmt, vsize, need, dtext))
+        why = None
+        for v in samples[name]:
+            r = tlv.encode(t, v)
+            if r[0] != 'return' or not isinstance(r[1], (bytes, bytearray)):
+                why = 'encode(%s, %r) folds to %r' % (name, v, r)
+                break
+            b = bytes(r[1])
+            if len(b) < 3 or b[0] != t or b[1] != len(b) - 2:
+                why = 'encode(%s, %r) writes %s: type / length octets do not describe the value' % (name, v, b.hex())
+                break
+            d = tlv.decode(b, 0, None)
+            if d != ('return', (t, len(b) - 2, v)):
+                why = 'encode(%s, %r) writes %s but the decoder reads %r' % (name, v, b.hex(), d[1] if d[0] == 'return' else d)
+                break
+            for other in (b[0:1] + bytes([b[1] + 1]) + b[2:] + b'\x00', b[0:1] + bytes([b[1] - 1]) + b[2:-1]):
+                d = tlv.decode(other, 0, None)
+                if not (d[0] == 'raise' and d[1].startswith('DecodeError(')):
+                    why = 'the decoder accepts %s TLV %s (length %d instead of %d): %r' % (name, other.hex(), other[1], b[1], d)
+                    break
+            if why:
+                break
+        report.check(why is None, 'C11-R6', key(par.qname, 'TLV %s encode format == decode length/format' % name), enc.loc(),
+                     'TLV %s: %s' % (name, why), detail='%d sample values folded through encode and decode' % len(samples[name]))
     report.floor('C11-R6', fixed, 7)
-    # masks applied by the decoder equal the field widths of the protocol
-    masks = {}
-    for n in walk_no_nested(dec.node):
-        b = match(n, 'V = V & $M')
-        if b is not None:
-            masks[try_const(b['M'])] = n
-    want = {0x07FF: 'MIUX 11 bit', 0x0F: 'RW 4 bit', 0x07: 'OPT 3 bit'}
-    report.check(set(masks) == set(want), 'C11-R6', key(par.qname, 'reserved-bit masks 0x07FF/0x0F/0x07'), dec.loc(),
-                 'Parameter.decode masks %s differ from MIUX/RW/OPT field widths %s' %
-                 (sorted(hex(m) for m in masks if m is not None), sorted(hex(m) for m in want)))
+    # reserved bits: what the decoder hands on for an all-ones value equals the field width of the protocol
+    want = {'VERSION': 0xFF, 'LTO': 0xFF, 'WKS': 0xFFFF, 'MIUX': 0x07FF, 'RW': 0x0F, 'OPT': 0x07}
+    got = {}
+    for name, w in sorted(want.items()):
+        size = 2 if w > 0xFF else 1
+        d = tlv.decode(bytes([consts.get(name, 0), size]) + b'\xff' * size, 0, None)
+        got[name] = d[1][2] if d[0] == 'return' and isinstance(d[1], tuple) and len(d[1]) == 3 else d
+    report.check(got == want, 'C11-R6', key(par.qname, 'reserved-bit masks 0x07FF/0x0F/0x07'), dec.loc(),
+                 'Parameter.decode hands on %s for all-ones values, the field widths are %s' %
+                 ({k: (hex(v) if isinstance(v, int) else v) for k, v in sorted(got.items())}, {k: hex(v) for k, v in sorted(want.items())}))
     # Parameter constants are 1..11 in protocol order
     want_c = dict(VERSION=1, MIUX=2, WKS=3, LTO=4, RW=5, SN=6, OPT=7, SDREQ=8, SDRES=9, ECPK=10, RN=11)
     report.check(consts == want_c, 'C11-R6', key(par.qname, 'TLV type codes (LLCP 1.3 table 5)'), par.module.relpath,
